@@ -62,6 +62,8 @@ type World struct {
 	Mux     *http.ServeMux
 	// YieldOnWrite makes every vnet write a schedule point.
 	YieldOnWrite bool
+	// YieldOnDial makes every dial a schedule point.
+	YieldOnDial bool
 }
 
 const Addr = "srv:1"
@@ -72,6 +74,11 @@ func NewWorld(s *vsched.Sched, opts ...jsonrpc.ServerOption) *World {
 	w.Ctx, w.Cancel = context.WithCancel(context.Background())
 	w.Net = vnet.New(vnet.Hooks{
 		Now: s.Now,
+		BeforeDial: func(a string) {
+			if w.YieldOnDial && !s.Draining() {
+				s.Yield("dial")
+			}
+		},
 		BeforeWrite: func(l *vnet.Link, d vnet.Dir, p []byte) {
 			if w.YieldOnWrite && !s.Draining() {
 				s.Yield(fmt.Sprintf("write-%d-%s", l.Ord, d))
